@@ -419,6 +419,10 @@ func tokenLine(name string) string {
 const nfLine = "echo 'credentials not found in native keychain'; exit 1\n"
 const errLine = "echo 'boom: some other failure' >&2; exit 1\n"
 
+// nfLineStderr: the same outcome said on the other stream. The library reads a helper's two streams as
+// one output (as docker's own client does), so where the standard message is written does not matter.
+const nfLineStderr = "echo 'credentials not found in native keychain' >&2; exit 1\n"
+
 // installHelpers writes real docker-credential-* programs (shell scripts) whose outputs are
 // exactly the helper table of gen.go, and puts them on this process's PATH.
 func installHelpers(bin string) error {
@@ -427,7 +431,7 @@ func installHelpers(bin string) error {
 	}
 	mix := "case \"$h\" in\n"
 	for _, p := range mixPatterns {
-		body := map[string]string{"creds": credsLine("c19mix"), "token": tokenLine("c19mix"), "nf": nfLine, "err": errLine}[p[1]]
+		body := map[string]string{"creds": credsLine("c19mix"), "token": tokenLine("c19mix"), "nf": nfLineStderr, "err": errLine}[p[1]]
 		mix += "*" + p[0] + "*) " + strings.TrimSuffix(body, "\n") + ";;\n"
 	}
 	mix += "*) " + strings.TrimSuffix(credsLine("c19mix"), "\n") + ";;\nesac\n"
